@@ -14,6 +14,7 @@ import json, os, re, shlex, shutil, subprocess, sys, tempfile, time
 def sh(cmd, cwd=None, env=None, timeout=1800):
     e = dict(os.environ)
     e.update({"GOFLAGS": "", "GOPROXY": "off", "GOSUMDB": "off", "GOTOOLCHAIN": "local"})
+    e.pop("GOWORK", None)  # a GOWORK=off exported for building /verif must not leak into the repository's workspace builds
     if env:
         e.update(env)
     try:
